@@ -2,7 +2,9 @@ import PercevalModel.Proto
 import PercevalModel.Model.C08
 import PercevalModel.Model.C08Glue
 import PercevalModel.Model.C08Circ
+import PercevalModel.Model.C08Mix
 import PercevalModel.Lemmas.C08Fock
+import PercevalModel.Lemmas.C08Thr
 import PercevalModel.Found.SM
 import Mathlib.Algebra.Order.Field.Rat
 
@@ -11,10 +13,13 @@ import Mathlib.Algebra.Order.Field.Rat
   * `{"op":"detect","wires":w|null,"max":k|null,"minp":q,"ns":[…]}` — construct a `Detector`,
     run the history of `detect(n)` calls on ONE instance (memo + cache threaded) and on fresh
     pure `detect`; reply type, max_detections and both result lists
-  * `{"op":"bs","L":l,"r":q,"ns":[…],"occ":n?}` — same for `BSLayeredPPNR`; with `occ` also the
-    assumed SLOS leaf distribution for that photon count
+  * `{"op":"bs","L":l,"r":q,"ns":[…],"occ":n?,"minp":q?}` — same for `BSLayeredPPNR` (`minp` absent: 0); with `occ`
+    also the SLOS leaf distribution for that photon count (leaf states not above `min_p` dropped, as the backend's
+    `add` does)
   * `{"op":"dtype","dets":[…]}`, `{"op":"heralds","heralds":[[k,v],…],"dets":[…]}`
-  * `{"op":"sim","m":m|null,"dist":[[[…],q],…],"dets":[…],"minph":f|null,"minp":q}`
+  * `{"op":"sim","m":m|null,"dist":[[[…],q],…],"dets":[…],"minph":f|null,"minp":q,"thr":q?}` — `thr` =
+    `prob_threshold` (absent: 0); the reply also carries the proved slacks `pslack`/`mslack`/`ptslack`
+    (`physSlack`/`massSlack`/`pointSlack` of `Lemmas/C08Thr.lean`) and the un-normalised retained `mass`
   * `{"op":"sample","state":[…],"dets":[…],"minp":q,"fixed":b}` — law of `simulate_detectors_sample`
     (`fixed:false` = the pinned tree, which raises on an unset detector in a mixed list)
   * `{"op":"tail","m":m,"dist":[…],"dets":[…]|null,"minph":f|null,"minp":q,"heralds":[[k,v],…]}` — tail of
@@ -28,6 +33,11 @@ import Mathlib.Algebra.Order.Field.Rat
   * `{"op":"probs", …same fields as "tail"…, "ps":[[[modes],"==|<|>|<=|>=",k],…], "keep":b}` — the WHOLE tail of
     `probs_svd` inside the model (`probsSvd`): results (normalised, heralded modes removed unless `keep`),
     physical_perf, logical_perf
+  * `{"op":"probsmix","m":m,"members":[{"p":q,"n":n,"dist":[…]},…],"dets":[…]|null,"filter":f,"minp":q,"rel":q,
+    "heralds":[…],"ps":[…],"keep":b}` — `probs_svd` for a MIXED input (`probsSvdMix`, `Model/C08Mix.lean`): the members
+    of the `SVDistribution` with their theoretical distributions, `rel` = `_rel_precision`, `filter` = the user's
+    `min_detected_photons_filter` (the herald values are added by the model); replies results / physical_perf /
+    logical_perf and the `p_threshold` handed to `simulate_detectors`
   A detector is `null`, `{"w":w|null,"max":k|null}` or `{"bs":l,"r":q}`.
 -/
 
@@ -142,9 +152,40 @@ def probsOp (j : Json) : Except String Json := do
   return Json.mkObj [("mask", toJson (useMask hs ds)), ("dist", sdistToJson o.results),
     ("perf", ratToJson o.phys), ("logical", ratToJson o.logical)]
 
+def probsMixOp (j : Json) : Except String Json := do
+  let m ← optNat j "m"
+  let minP ← ratOfJson (← j.getObjVal? "minp")
+  let rel ← ratOfJson (← j.getObjVal? "rel")
+  let uf ← natOf j "filter"
+  let ds ← match j.getObjVal? "dets" with
+    | .ok .null => pure []
+    | .ok v => parseDets v
+    | .error _ => throw "missing field dets"
+  let hs ← (← arrOf j "heralds").toList.mapM fun h => do
+    match h with
+    | .arr #[a, b] => return ((← a.getNat?), (← b.getNat?))
+    | _ => throw "bad herald"
+  let ms ← (← arrOf j "members").toList.mapM fun mj => do
+    let p ← ratOfJson (← mj.getObjVal? "p")
+    let n ← natOf mj "n"
+    let dist ← (← arrOf mj "dist").toList.mapM fun e => do
+      match e with
+      | .arr #[s, q] => return ((← natList s), (← ratOfJson q))
+      | _ => throw "bad dist entry"
+    return (⟨p, n, dist⟩ : Member ℚ)
+  let ps ← parsePS (← j.getObjVal? "ps")
+  let keep ← boolOf j "keep"
+  if !ds.isEmpty && m ≠ some ds.length then throw "AssertionError"
+  let o ← probsSvdMix minP rel ms ds uf hs ps keep
+  let F := uf + (hs.map (·.2)).sum
+  return Json.mkObj [("mask", toJson (useMask hs ds)), ("dist", sdistToJson o.results),
+    ("perf", ratToJson o.phys), ("logical", ratToJson o.logical),
+    ("thr", ratToJson (preThreshold minP rel F ms)), ("kept", toJson (preKept minP rel F ms).length)]
+
 def handleReq (j : Json) : Except String Json := do
   let op ← strOf j "op"
   if op == "bscirc" then return ← bscirc j
+  if op == "probsmix" then return ← probsMixOp j
   if op == "probs" then return ← probsOp j
   if op == "detect" then
     let w ← optNat j "wires"
@@ -163,9 +204,12 @@ def handleReq (j : Json) : Except String Json := do
     let r ← ratOfJson (← j.getObjVal? "r")
     let ns ← natList (← j.getObjVal? "ns")
     let p ← mkBS l r
-    let hist := (SM.run (bsInst p.1 p.2) [] ns).2
+    let minP ← match j.getObjVal? "minp" with
+      | .ok v => ratOfJson v
+      | .error _ => pure 0
+    let hist := (SM.run (bsInst minP p.1 p.2) [] ns).2
     let occ := match natOf j "occ" with
-      | .ok n => sdistToJson (treeOcc p.2 p.1 n)
+      | .ok n => sdistToJson (treeOccP minP p.2 p.1 n)
       | .error _ => Json.null
     return Json.mkObj [("type", "PPNR"), ("max", toJson (2 ^ l)),
       ("hist", .arr (hist.map fun o => outToJson o.2).toArray), ("occ", occ)]
@@ -189,9 +233,15 @@ def handleReq (j : Json) : Except String Json := do
       match e with
       | .arr #[s, p] => return ((← natList s), (← ratOfJson p))
       | _ => throw "bad dist entry"
-    let a ← simulateChecked minP m dist ds mp
+    let thr ← match j.getObjVal? "thr" with
+      | .ok v => ratOfJson v
+      | .error _ => pure 0
+    let a ← simulateCheckedThr minP thr m dist ds mp
+    let raw := simulateRawThr minP thr dist ds mp
     return Json.mkObj [("type", typeStr (detectionType ds)), ("dist", sdistToJson a.1),
-      ("perf", ratToJson a.2)]
+      ("perf", ratToJson a.2), ("mass", ratToJson (mass raw.1)),
+      ("pslack", ratToJson (physSlack minP thr ds dist)), ("mslack", ratToJson (massSlack minP thr ds dist)),
+      ("ptslack", ratToJson (pointSlack minP thr ds dist))]
   else if op == "tail" then
     let m ← optNat j "m"
     let minP ← ratOfJson (← j.getObjVal? "minp")
